@@ -18,10 +18,13 @@ EXTENDS MSMImpl, TLC
 CONSTANTS MM, Cs, Ord, LB, NLimb
 ASSUME \A c \in Cs : c <= LB        \* a window spans at most two limbs, as in the code (c <= 21 < 64)
 Limbs(v) == [j \in 1 .. NLimb |-> (v \div MP2(LB * (j - 1))) % MP2(LB)]
-VARIABLE s
-Init == s = 0
-Next == s < MM - 1 /\ s' = s + 1
-Spec == Init /\ [][Next]_s
+(* the scalar s = 1024 * hi + lo is walked in two coordinates so that the frontier is wide and TLC's workers share it *)
+VARIABLES hi, lo
+s == 1024 * hi + lo
+Init == hi = 0 /\ lo = 0
+Next == \/ lo < 1023 /\ 1024 * hi + lo + 1 < MM /\ lo' = lo + 1 /\ hi' = hi
+        \/ 1024 * (hi + 1) + lo < MM /\ hi' = hi + 1 /\ lo' = lo
+Spec == Init /\ [][Next]_<<hi, lo>>
 (* bucket method for one point P (an integer mod Ord standing for a group element) *)
 ChunkTotal(bits, c, P, nbuckets) ==
   LET bucket == [k \in 1 .. nbuckets |-> IF bits = 0 THEN 0
